@@ -1979,7 +1979,7 @@ def run(ck) -> None:
         ck.broken("build:C13/Iso.v", out[-2000:])
     seen: set = set()
     # ---- corpus + generated cases: correspondence model <-> implementation
-    n = 120 if not ck.thorough else 6000
+    n = 120 if not ck.thorough else 4800
     nops = 6 if not ck.thorough else 10
     specs = load_corpus() + [spec_for(ck.rng, i) for i in range(n)]
     try:
@@ -2014,7 +2014,7 @@ def run(ck) -> None:
         ck.broken("correspondence:clone-model-vs-implementation",
                   json.dumps({"spec": sp, "stage": CODE_MEANING.get(code, str(code))}))
     # ---- the oracle on the same scenarios (and more)
-    extra = 60 if not ck.thorough else 4000
+    extra = 60 if not ck.thorough else 3000
     ospecs = specs + [spec_for(ck.rng, i) for i in range(extra)]
     for sp, _ in bad:
         ospecs.insert(0, sp)
